@@ -92,6 +92,32 @@ def day_job(job):
         "targets": list(DEFAULT_TARGETS),
         "rspecs": [{"key": g, "name": n} for g, v in params.items() if isinstance(v, dict) for n in (v.get("rounding") or {})],
     }
+    # static parameter reads of the rules in the dependency graph of the default targets (candidates, judged by TLC
+    # against the environment the law prescribes for the day)
+    import networkx as nx
+
+    import reads
+
+    g_ = nx.DiGraph()
+    for n, fn in functions.items():
+        for a in gs.arg_names(fn):
+            g_.add_edge(a, n)
+    anc = set()
+    fno, _fo = gs.function_table(iso, data_cols, [t for t in DEFAULT_TARGETS if t in functions or True])
+    gg = nx.DiGraph()
+    for n, fn in fno.items():
+        gg.add_node(n)
+        for a in gs.arg_names(fn):
+            gg.add_edge(a, n)
+    for t in DEFAULT_TARGETS:
+        if t in gg:
+            anc |= nx.ancestors(gg, t) | {t}
+    items = []
+    for n in sorted(anc):
+        if n in functions:
+            for grp, k in sorted(reads.reads_of(functions[n])):
+                items.append({"rule": n, "group": grp, "key": k})
+    case["reads"] = {"k": "reads", "day": datetime.date.fromisoformat(iso).toordinal(), "iso": iso, "items": items}
     runs_ = []
     for t in range(npop):
         df, P = diverse_population(iso, rnd, t)
@@ -103,6 +129,35 @@ def day_job(job):
             rule = gs._blame(e, by_py)
             runs_.append({"ok": False, "error": f"{type(e).__name__}: {str(e)[:120]}".replace("\n", " "), "rule": rule, "persons": P, "etype": type(e).__name__})
     return case, runs_
+
+
+def _confirm_read(job):
+    """Dynamic witness for a static candidate: call the rule on drawn rows; report a KeyError naming the key."""
+    d_, nm = job
+    import inspect
+
+    import vec
+
+    rule, path = nm.split(":")
+    key = path.split(".", 1)[1]
+    params, functions = gs.env(d_)
+    f = functions.get(rule)
+    if f is None:
+        return d_, nm, ""
+    rnd = random.Random(hash((d_, nm)) % (1 << 30))
+    names = list(inspect.signature(f).parameters)
+    ann = getattr(f, "__annotations__", {})
+    pargs = {a: params.get(a[:-7], {}) for a in names if a.endswith("_params")}
+    for _ in range(80):
+        row = {a: vec.draw(a, ann.get(a), rnd) for a in names if not a.endswith("_params")}
+        try:
+            f(**row, **pargs)
+        except KeyError as e:
+            if key in str(e):
+                return d_, nm, f"KeyError {e} for arguments {row}"
+        except Exception:  # noqa: BLE001
+            continue
+    return d_, nm, ""
 
 
 def run(tier):
@@ -118,6 +173,8 @@ def run(tier):
         days = sorted(eves | set(rnd.sample(boundaries, min(8, len(boundaries)))))
     outs = pool_map(day_job, [(d, rnd.randrange(1 << 30), 3 if quick else 12) for d in days])
     cases = [o[0] for o in outs]
+    for c in cases:
+        c.setdefault("reads", {"k": "reads", "day": 0, "iso": c["id"], "items": []})
     tf, of = chk.work / "complete.json", chk.work / "complete.out.json"
     # several TLC runs in parallel
     chunks = [cases[i::8] for i in range(8)]
@@ -135,6 +192,27 @@ def run(tier):
         for v in o:
             verdicts[v["case"]] = v
     chk.cov["traces_validated_against_impl"] += len(cases)
+    # judge the static reads with Timeline.tla
+    import c07
+
+    raw_file = chk.work / "raw.json"
+    tlc.write_json(raw_file, {"groups": c07.export_raw(), "impls": []})
+    revs = [c["reads"] for c in cases]
+    rbad, rstats, _m = c07.judge(chk, raw_file, revs, "reads")
+    nreads = sum(len(e["items"]) for e in revs)
+    chk.notes["static_parameter_reads_checked"] = nreads
+    # a static miss is a CANDIDATE (the read may sit on a branch that no data can take at that date); it becomes a
+    # violation only with a dynamic witness: the rule itself, called on drawn argument rows, raises KeyError for that key
+    cands = []
+    for idx, clause, names in rbad:
+        for nm in names:
+            cands.append((revs[idx]["iso"], nm))
+    chk.notes["static_read_candidates"] = len(cands)
+    chk.notes["static_read_candidate_samples"] = sorted({nm for _, nm in cands})[:12]
+    for d_, nm, err in pool_map(_confirm_read, sorted(set(cands))):
+        if err:
+            rule = nm.split(":")[0]
+            chk.violation(f"C08|raised|KeyError|rule={rule}|half={d_[:4]}H{1 if d_[5:7] <= '06' else 2}|static-read={nm}|date={d_}", f"rule {rule} (in the dependency graph of the default targets at {d_}) reads parameter {nm.split(':')[1]} which does not exist that day: {err}", {"date": d_, "read": nm, "witness": err})
     nruns = 0
     for (case, runs_), d in zip(outs, days):
         v = verdicts[d]
